@@ -76,33 +76,37 @@ def ref(ts, wide, lfmodel=False):
 
 
 # ---- known-finding classes (syntactic signatures of the failing globs) ----
-def k_escaped_asterisk(ts):
-    return any(t[0] == "lit" and t[1] == "*" and t[2] for t in ts)
-
-
-def k_star_before_escape(ts):
-    return any(ts[i] == ("st",) and ts[i + 1][0] == "lit" and ts[i + 1][2] for i in range(len(ts) - 1))
-
-
-def k_globstar_slash(ts):
-    # after a globstar the implementation stays in "globstar mode" until the next
-    # literal other than '/', swallowing '/' (escaped or not) and single asterisks
+def kclasses(ts):
+    """-> {finding key: set of excused directions} for the token list of a glob."""
+    out = {}
+    # (1) an escaped asterisk is remembered as a pending wildcard
+    if any(t[0] == "lit" and t[1] == "*" and t[2] for t in ts):
+        out["escaped-asterisk:overmatch"] = {"over"}
+    # (2) a single '*' directly before a backslash escape is dropped
+    if any(ts[i] == ("st",) and ts[i + 1][0] == "lit" and ts[i + 1][2] for i in range(len(ts) - 1)):
+        out["star-before-escape:undermatch"] = {"under"}
+    # (3) after '**' the translator stays in "globstar mode" until the next literal other than
+    #     '/', '*' or an escaped backslash: '/' is swallowed and single asterisks are dropped
     for i, t in enumerate(ts):
-        if t == ("gs",):
-            j = i + 1
-            while j < len(ts) and (ts[j] == ("st",) or ts[j] == ("gs",)):
-                j += 1
-            if j < len(ts) and ts[j][0] == "lit" and ts[j][1] == "/":
-                return True
-    return False
-
-
-KCLASS = {
-    # key -> (predicate, excused direction)
-    "escaped-asterisk:overmatch": (k_escaped_asterisk, "over"),
-    "star-before-escape:undermatch": (k_star_before_escape, "under"),
-    "globstar-slash:overmatch": (k_globstar_slash, "over"),
-}
+        if t != ("gs",):
+            continue
+        j = i + 1
+        seen_bs = False
+        while j < len(ts):
+            u = ts[j]
+            if u in (("st",), ("gs",)):
+                if seen_bs:
+                    out.setdefault("globstar-mode:swallow", set()).update({"under", "over"})
+            elif u[0] == "lit" and u[1] == "/":
+                out.setdefault("globstar-mode:swallow", set()).add("over")
+                if seen_bs:
+                    out["globstar-mode:swallow"].add("under")
+            elif u[0] == "lit" and u[1] == "\\":
+                seen_bs = True
+            else:
+                break
+            j += 1
+    return out
 
 
 def match_mode():
@@ -220,7 +224,7 @@ def run(ctx):
             st = ctx.violation(f"crash:{type(e).__name__}", f"glob {g!r} cannot be compiled: {e!r}", {"glob": g, "path": "", "expected": False})
             ctx.ob(f"glob {g!r}", "RZ3", st)
             continue
-        kin = [k for k, (pred, _d) in KCLASS.items() if pred(ts)]
+        kin = kclasses(ts)
         for dom_name, dom in (("nolf", D_NOLF), ("lf", D_LF)):
             verdict = "holds"
             detail = None
@@ -256,8 +260,8 @@ def run(ctx):
                     if r2 == "unsat":
                         key = "LF"
                 if key is None:
-                    for k in kin:
-                        if KCLASS[k][1] == direction:
+                    for k in sorted(kin):
+                        if direction in kin[k]:
                             key = k
                             break
                 if key is None:
